@@ -248,8 +248,7 @@ func (cl *Client) ParseConnect(lid string, pk packets.Packet) {
 			WillDelayInterval: pk.Connect.WillProperties.WillDelayInterval,
 			User:              pk.Connect.WillProperties.User,
 		}
-		if pk.Properties.SessionExpiryIntervalFlag &&
-			pk.Properties.SessionExpiryInterval < pk.Connect.WillProperties.WillDelayInterval {
+		if pk.Properties.SessionExpiryInterval < pk.Connect.WillProperties.WillDelayInterval {
 			cl.Properties.Will.WillDelayInterval = pk.Properties.SessionExpiryInterval
 		}
 		if pk.Connect.WillFlag {
